@@ -27,15 +27,15 @@ func (c12) Cases(tier string) int {
 
 func (c12) Thresholds(tier string) map[string]int64 {
 	return map[string]int64{
-		"end-by-stop":                     500,
-		"end-by-node-end":                 500,
-		"stop-with-statements-left":       300,
-		"stop-nested":                     200,
-		"end-right-after-option-group":    200,
-		"end-after-empty-chosen-body":     100,
-		"extra-next-calls":                20000,
-		"restore-after-end-revives":       300,
-		"end-with-ysgo-statements-left=0": 500,
+		"end-by-stop":                      500,
+		"end-by-node-end":                  500,
+		"stop-with-statements-left":        300,
+		"stop-nested":                      200,
+		"end-right-after-option-group":     200,
+		"end-after-empty-chosen-body":      100,
+		"extra-next-calls":                 20000,
+		"restore-after-end-revives":        300,
+		"end-with-ysgo-statements-left=0":  500,
 		"stop-with-words-reported-the-end": 1000,
 	}
 }
